@@ -6,6 +6,8 @@
 import ModVerif.Model.Note
 import ModVerif.Spec.NoteSpec
 import ModVerif.Proofs.Note
+import ModVerif.Proofs.NoteRoundtrip
+import ModVerif.Proofs.NoteKeys
 namespace ModVerif.Props.C07
 open ModVerif ModVerif.Note ModVerif.B64
 
@@ -71,6 +73,49 @@ theorem open_partition {msg : Bytes} {known : Verifiers} {n : Note} (h : Open ms
   obtain ⟨ps, hps, hlen, hall, h1, h2⟩ := openLoop_partition _ _ _ hl
   exact ⟨split, ps, hs, ht, hps, by simpa using hlen, hall, by rw [hsig, h1]; simp, by rw [hunv, h2]; simp⟩
 
+/-- ★ `sign_open_roundtrip`.  For every valid note text `t` (UTF-8, no ASCII control character but newline,
+    ends in newline — blank lines and lines that look like signature lines included), every list of at most
+    100 signers with valid names whose `Sign` succeeds with a non-empty signature, and every `known` that
+    answers each signer's (name, hash) either "unknown" or with a verifier of that name and hash which
+    accepts the signer's signature over `t` (honest keys; no ambiguous / failing lookups), at least one
+    signer being known:  `Sign` produces `t ‖ "\n" ‖ one line per signer`, and `Open` of that message
+    returns exactly `t`, the signatures of known keys as verified (first per key, in signing order) and
+    the signatures of unknown keys as unverified (in signing order, identical lines once). -/
+theorem sign_open_roundtrip {t : Bytes} {ss : List Signer} {known : Verifiers}
+    (ht : ValidText t)
+    (hnames : ∀ s ∈ ss, isValidName s.name = true)
+    (hcount : ss.length ≤ maxSigs)
+    (hsign : ∀ s ∈ ss, ∃ x, s.sign t = some x ∧ x ≠ [])
+    (hlook : ∀ s ∈ ss, ∀ x, s.sign t = some x →
+      known s.name s.hash = .unknown ∨
+      ∃ k, known s.name s.hash = .found k ∧ k.name = s.name ∧ k.hash = s.hash ∧ k.verify t x = true)
+    (hone : ∃ s ∈ ss, ∃ k, known s.name s.hash = .found k) :
+    let made := ss.filterMap (sigOfSigner t)
+    Sign ⟨t, [], []⟩ ss = .ok (t ++ [10] ++ blockOf made) ∧
+    Open (t ++ [10] ++ blockOf made) known = .ok ⟨t,
+      dedupFrom (fun g : Signature => (g.name, g.hash)) [] (made.filter (sigKnown known)),
+      dedupFrom (fun g : Signature => g.name ++ [32] ++ g.base64) [] (made.filter (sigUnknown known))⟩ := by
+  refine sign_open_core ht hcount ?_ hone
+  intro s hs
+  obtain ⟨x, hx, hxne⟩ := hsign s hs
+  exact ⟨hnames s hs, x, hx, hxne, hlook s hs x hx⟩
+
+/-- `sign_open_roundtrip`, the documented other half of the partition: when NO signer's key is known, `Open`
+    of the signed message returns UnverifiedNoteError carrying the note: the same text, no verified
+    signature, every signature (identical lines once, in signing order) as unverified. -/
+theorem sign_open_roundtrip_unverified {t : Bytes} {ss : List Signer} {known : Verifiers}
+    (ht : ValidText t)
+    (hnames : ∀ s ∈ ss, isValidName s.name = true)
+    (hcount : ss.length ≤ maxSigs)
+    (hsign : ∀ s ∈ ss, ∃ x, s.sign t = some x ∧ x ≠ [])
+    (hunk : ∀ s ∈ ss, known s.name s.hash = .unknown)
+    (hss : ss ≠ []) :
+    let made := ss.filterMap (sigOfSigner t)
+    Sign ⟨t, [], []⟩ ss = .ok (t ++ [10] ++ blockOf made) ∧
+    Open (t ++ [10] ++ blockOf made) known = .error (.unverified ⟨t, [],
+      dedupFrom (fun g : Signature => g.name ++ [32] ++ g.base64) [] made⟩) :=
+  sign_open_unverified_core ht hcount (fun s hs => ⟨hnames s hs, hsign s hs⟩) hunk hss
+
 /-- ★ `text_mutation_rejected`.  Unforgeability hypothesis: the verifiers of the known keys accept
     signatures over the signed text `t` only.  Then every message that opens — in particular every
     byte-level modification of a signed message — opens with text `t`; a message whose text part
@@ -124,6 +169,71 @@ theorem verifierList_ambiguous (l : List Verifier) (name : Bytes) (hash : UInt32
     exact ⟨rfl, hmem v (by simp)⟩
   | _ :: _ :: _, _ => simp
 
+/-- `sign_open_roundtrip` for `VerifierList`: the lookup hypotheses reduce to "no signer's key is listed
+    twice" and "every listed verifier with a signer's name and hash accepts that signer's signature". -/
+theorem sign_open_roundtrip_verifierList {t : Bytes} {ss : List Signer} {vs : List Verifier}
+    (ht : ValidText t)
+    (hnames : ∀ s ∈ ss, isValidName s.name = true)
+    (hcount : ss.length ≤ maxSigs)
+    (hsign : ∀ s ∈ ss, ∃ x, s.sign t = some x ∧ x ≠ [])
+    (hunamb : ∀ s ∈ ss, VerifierList vs s.name s.hash ≠ .ambiguous)
+    (honest : ∀ s ∈ ss, ∀ v ∈ vs, v.name = s.name → v.hash = s.hash → ∀ x, s.sign t = some x → v.verify t x = true)
+    (hone : ∃ s ∈ ss, ∃ v ∈ vs, v.name = s.name ∧ v.hash = s.hash) :
+    let made := ss.filterMap (sigOfSigner t)
+    Sign ⟨t, [], []⟩ ss = .ok (t ++ [10] ++ blockOf made) ∧
+    Open (t ++ [10] ++ blockOf made) (VerifierList vs) = .ok ⟨t,
+      dedupFrom (fun g : Signature => (g.name, g.hash)) [] (made.filter (sigKnown (VerifierList vs))),
+      dedupFrom (fun g : Signature => g.name ++ [32] ++ g.base64) [] (made.filter (sigUnknown (VerifierList vs)))⟩ := by
+  refine sign_open_roundtrip ht hnames hcount hsign ?_ ?_
+  · intro s hs x hx
+    have hspec := verifierList_ambiguous vs s.name s.hash
+    cases hl : VerifierList vs s.name s.hash with
+    | unknown => exact Or.inl rfl
+    | ambiguous => exact absurd hl (hunamb s hs)
+    | otherErr => exact absurd hl hspec.2.2.2
+    | found k =>
+      obtain ⟨_, hmem, hn, hh⟩ := hspec.2.2.1 k hl
+      exact Or.inr ⟨k, rfl, hn, hh, honest s hs k hmem hn hh x hx⟩
+  · obtain ⟨s, hs, v, hv, hn, hh⟩ := hone
+    have hspec := verifierList_ambiguous vs s.name s.hash
+    cases hl : VerifierList vs s.name s.hash with
+    | unknown =>
+      have := hspec.1.mp hl
+      have hm : v ∈ vs.filter (fun v => v.name == s.name && v.hash == s.hash) := by
+        rw [List.mem_filter]; exact ⟨hv, by simp [hn, hh]⟩
+      rw [this] at hm; cases hm
+    | ambiguous => exact absurd hl (hunamb s hs)
+    | otherErr => exact absurd hl hspec.2.2.2
+    | found k => exact ⟨s, hs, k, hl⟩
+
+/-- `newVerifier_binds_key` (anchor "NewVerifier/NewSigner bind key hash to name+key").  A verifier key string
+    is accepted only in the form `name+hash16+base64(0x01 ‖ pub)` with a valid name, eight hex digits, a
+    32-byte Ed25519 key, and `hash16` equal to the first four bytes of `sha(name ‖ "\n" ‖ 0x01 ‖ pub)`;
+    the resulting verifier carries that name and hash and verifies with `pub`. -/
+theorem newVerifier_binds_key {sha : Bytes → Bytes} {ed : Bytes → Bytes → Bytes → Bool} {vkey : Bytes}
+    {v : Verifier} (h : NewVerifier sha ed vkey = .ok v) :
+    ∃ hash16 key64 pub,
+      v.name = (chop vkey [43]).1 ∧ (hash16, key64) = chop (chop vkey [43]).2 [43] ∧
+      isValidName v.name = true ∧ parseHash16 hash16 = some v.hash ∧
+      b64dec key64 = some (1 :: pub) ∧ pub.length = 32 ∧
+      keyHash sha v.name (1 :: pub) = some v.hash ∧ v.verify = ed pub :=
+  NewVerifier_ok h
+
+/-- `newSigner_binds_key`.  A signer key string is accepted only in the form
+    `PRIVATE+KEY+name+hash16+base64(0x01 ‖ seed)` with a valid name, a 32-byte seed, and `hash16` equal to the
+    key hash of the PUBLIC key derived from the seed; the signer carries that name and hash — the same
+    (name, hash) `NewVerifier` accepts for the matching public key. -/
+theorem newSigner_binds_key {sha : Bytes → Bytes} {edPub : Bytes → Bytes} {edSign : Bytes → Bytes → Bytes}
+    {skey : Bytes} {s : Signer} (h : NewSigner sha edPub edSign skey = .ok s) :
+    ∃ hash16 key64 seed,
+      (chop skey [43]).1 = B "PRIVATE" ∧ (chop (chop skey [43]).2 [43]).1 = B "KEY" ∧
+      s.name = (chop (chop (chop skey [43]).2 [43]).2 [43]).1 ∧
+      (hash16, key64) = chop (chop (chop (chop skey [43]).2 [43]).2 [43]).2 [43] ∧
+      isValidName s.name = true ∧ parseHash16 hash16 = some s.hash ∧
+      b64dec key64 = some (1 :: seed) ∧ seed.length = 32 ∧
+      keyHash sha s.name (1 :: edPub seed) = some s.hash ∧ s.sign = fun msg => some (edSign seed msg) :=
+  NewSigner_ok h
+
 /-- An ambiguous known key makes `Open` fail: if a signature line (reached by the loop, i.e. all
     earlier lines processed without error) names an ambiguous key, no note is returned.  Stated for
     the first line. -/
@@ -159,6 +269,12 @@ def msg : Bytes := [104, 105, 10, 10, 226, 128, 148, 32, 97, 32, 65, 65, 65, 65,
 def b64 : Bytes := [65, 65, 65, 65, 65, 81, 69, 67, 65, 119, 61, 61]
 def line : Bytes := [226, 128, 148, 32, 97, 32] ++ b64
 def p : SigLine := ⟨[97], b64, 1, [1, 2, 3], [97, 32] ++ b64⟩
+/-- "x\n\n— a AAAAAQECAw==\n": a text with a blank line followed by a line that looks like a signature -/
+def t2 : Bytes := [120, 10, 10] ++ line ++ [10]
+def sA : Signer := ⟨[97], 1, fun _ => some [1, 2, 3]⟩
+def sB : Signer := ⟨[98], 7, fun _ => some [9]⟩
+def vA2 : Verifier := ⟨[97], 1, fun x s => x == t2 && s == [1, 2, 3]⟩
+def known2 : Verifiers := VerifierList [vA2]
 end Ex
 
 /-- `open_sound`: a message that opens -/
@@ -170,6 +286,42 @@ example :
     Open (Ex.t ++ [10] ++ Ex.line ++ [10] ++ (Ex.line.dropLast.dropLast ++ [61, 61]).set 14 66 ++ [10]
             ++ (Ex.line.set 4 98) ++ [10] ++ (Ex.line.set 4 98) ++ [10]) (VerifierList [Ex.vA])
       = .ok ⟨Ex.t, [⟨[97], 1, Ex.b64⟩], [⟨[98], 1, Ex.b64⟩]⟩ := by rfl
+
+/-- `sign_open_roundtrip`: a text with a blank line and a line that looks like a signature line
+    ("x\n\n— a AAAAAQECAw==\n"), two signers (one known, one unknown) satisfy every hypothesis -/
+example :
+    ValidText Ex.t2 ∧ (∀ s ∈ [Ex.sA, Ex.sB], isValidName s.name = true) ∧ [Ex.sA, Ex.sB].length ≤ maxSigs ∧
+    (∀ s ∈ [Ex.sA, Ex.sB], ∃ x, s.sign Ex.t2 = some x ∧ x ≠ []) ∧
+    (∀ s ∈ [Ex.sA, Ex.sB], ∀ x, s.sign Ex.t2 = some x →
+      Ex.known2 s.name s.hash = .unknown ∨
+      ∃ k, Ex.known2 s.name s.hash = .found k ∧ k.name = s.name ∧ k.hash = s.hash ∧ k.verify Ex.t2 x = true) ∧
+    (∃ s ∈ [Ex.sA, Ex.sB], ∃ k, Ex.known2 s.name s.hash = .found k) := by
+  refine ⟨⟨by decide +kernel, by decide +kernel⟩, ?_, by decide, ?_, ?_, ?_⟩
+  · intro s hs
+    simp only [List.mem_cons, List.not_mem_nil, or_false] at hs
+    rcases hs with rfl | rfl <;> rfl
+  · intro s hs
+    simp only [List.mem_cons, List.not_mem_nil, or_false] at hs
+    rcases hs with rfl | rfl
+    · exact ⟨[1, 2, 3], rfl, by simp⟩
+    · exact ⟨[9], rfl, by simp⟩
+  · intro s hs x hx
+    simp only [List.mem_cons, List.not_mem_nil, or_false] at hs
+    rcases hs with rfl | rfl
+    · right
+      have : x = [1, 2, 3] := by simpa [Ex.sA] using hx.symm
+      subst this
+      exact ⟨Ex.vA2, by rfl, rfl, rfl, by rfl⟩
+    · left; rfl
+  · exact ⟨Ex.sA, List.mem_cons_self, Ex.vA2, by rfl⟩
+
+/-- and the round trip itself, evaluated: the text (with its embedded blank line and signature-like line) comes back -/
+example : (Sign ⟨Ex.t2, [], []⟩ [Ex.sA, Ex.sB]).toOption.map (fun m => (Open m Ex.known2).toOption.map (·.text))
+    = some (some Ex.t2) := by rfl
+
+/-- `sign_open_roundtrip_unverified`: the same signers against an empty verifier list -/
+example : (∀ s ∈ [Ex.sA, Ex.sB], VerifierList [] s.name s.hash = .unknown) ∧ [Ex.sA, Ex.sB] ≠ [] :=
+  ⟨fun _ _ => rfl, by simp⟩
 
 /-- `open_bad_known_sig_fails`: the same message against a key that rejects -/
 example : lastIndexOf sigSplit Ex.msg = some 2 ∧
@@ -203,5 +355,16 @@ example : lastIndexOf sigSplit Ex.msg = some 2 ∧
     sigLines (Ex.msg.drop (2 + 2)) = Ex.line :: [] ∧ parseSigLine Ex.line = some Ex.p ∧
     VerifierList [Ex.vA, Ex.vR] Ex.p.name Ex.p.hash = .ambiguous :=
   ⟨by rfl, by rfl, by rfl, by rfl⟩
+
+/-- `newVerifier_binds_key`: an accepted key string (with a toy `sha` returning 00 00 00 01):
+    "a+00000001+" ‖ base64(0x01 ‖ 32 zero bytes) -/
+example : (NewVerifier (fun _ => [0, 0, 0, 1]) (fun _ _ _ => true)
+      ([97, 43, 48, 48, 48, 48, 48, 48, 48, 49, 43] ++ b64enc (1 :: List.replicate 32 0))).toOption.map
+        (fun v => (v.name, v.hash)) = some ([97], 1) := by rfl
+
+/-- `newSigner_binds_key`: an accepted key string "PRIVATE+KEY+a+00000001+" ‖ base64(0x01 ‖ 32 bytes) -/
+example : (NewSigner (fun _ => [0, 0, 0, 1]) (fun _ => List.replicate 32 0) (fun _ _ => [])
+      ([80, 82, 73, 86, 65, 84, 69, 43, 75, 69, 89, 43, 97, 43, 48, 48, 48, 48, 48, 48, 48, 49, 43] ++
+        b64enc (1 :: List.replicate 32 7))).toOption.map (fun s => (s.name, s.hash)) = some ([97], 1) := by decide +kernel
 
 end ModVerif.Props.C07
